@@ -261,7 +261,7 @@ def _first_error(diag):
 
 
 # ------------------------------------------------------------------------------------------------ check entry
-def run_check(prop, profile, level, tier, seed, n_models, runs_per_model, rule, assumptions, extra=None):
+def run_check(prop, profile, level, tier, seed, n_models, runs_per_model, rule, assumptions, extra=None, pre_finish=None):
     rep = engine.Report(prop, level, tier, seed)
     rep.assumptions = assumptions
     worldA.ensure_runtime(PROFILE_FLAVOR(profile))
@@ -312,6 +312,8 @@ def run_check(prop, profile, level, tier, seed, n_models, runs_per_model, rule, 
     }
     if extra:
         rep.coverage.update(extra)
+    if pre_finish:
+        pre_finish(rep)
     return rep.finish()
 
 
